@@ -115,7 +115,9 @@ def compress_as(filename, fmt, target=None, keep=True):
     compfile = get_compressor(fmt)
     try:
         if fmt == "zip":
-            with compfile(target, 'w') as f_out:
+            # Timestamps outside of 1980..2107 cannot be stored in a zip
+            # archive; clamp them instead of refusing to compress the file:
+            with compfile(target, 'w', strict_timestamps=False) as f_out:
                 f_out.write(
                     filename, arcname=target_filename,
                     compress_type=zipfile.ZIP_DEFLATED
